@@ -33,6 +33,14 @@ theorem tree_sound_semantic_partial (A : List PolicyRule) (s : Sub)
     ruleAllows s.asRule a = true → ∃ o ∈ A, ruleAllows o a = true :=
   tree_sound_semantic_core A s hStar hEmpty hDom hg a
 
+/-- **What the tree decides, exactly**: a granular request is granted iff one single
+allow-list rule lists each of its components literally or as `*` (an empty name list
+counting as `*`). This is the behaviour as it is, D8 included; the only exclusion is the
+empty non-resource URL. -/
+theorem tree_decision_exact (A : List PolicyRule) (s : Sub) (hEmpty : NoEmptyURL A) (hDom : s.InDomain) :
+    granted A s = A.any (ruleGrants · s) :=
+  granted_eq A s hEmpty hDom
+
 /-- The validator as a whole: when it rejects nothing, every granular sub-rule
 (Kubernetes' BreakdownRule) of every request is covered by the allow list, i.e.
 Kubernetes' `Covers(allow, requests)` holds. -/
@@ -103,6 +111,18 @@ theorem reject_means_no_role (cfg : Cfg) (plan : Plan) (s : Store) (name : Strin
   have hreach := reach_eq_of_applied_inert sem plan 0 (reconcile cfg name) s
     (fun r hr t => exec_read t r (hw r hr))
   exact ⟨hw, hreach, hreach _ (run_mem_reach sem plan 0 _ s)⟩
+
+/-- ... and therefore no history of retries ever creates or updates a role while a request
+stays rejected. -/
+theorem reject_means_no_role_ever (cfg : Cfg) (plans : List Plan) (s : Store) (name : String)
+    (h : ∀ p, s.prs.find? (·.name = name) = some p → rejectedIn cfg s p ≠ some []) :
+    runPlans cfg name plans s = s := by
+  induction plans with
+  | nil => rfl
+  | cons pl rest ih =>
+    simp only [runPlans]
+    rw [(reject_means_no_role cfg pl s name h).2.2]
+    exact ih
 
 /-- Every write the provider-revision reconciler applies, under every fault plan, creates or
 updates a role rendered for the live (not paused, not deleted) revision of that name from
@@ -205,15 +225,6 @@ theorem granted_requests_are_covered_partial (cfg : Cfg) (plan : Plan) (s : Stor
 
 /-! ### XRD roles -/
 
-/-- a rule over the XRD's group that names the composite plural or the claim plural `n`:
-either `[n, n/status]` with one of the verb tables, or `[n/finalizers]` with update -/
-def IsXRDRule (d : XRD) (ρ : PolicyRule) : Prop :=
-  ρ.apiGroups = [d.group] ∧ ρ.resourceNames = [] ∧ ρ.nonResourceURLs = [] ∧
-  ∃ n, (n = d.plural ∨ d.claim = some n) ∧
-    ((ρ.resources = [n, n ++ xrd_suffixStatus] ∧
-        (ρ.verbs = xrdVerbsEdit ∨ ρ.verbs = xrdVerbsView ∨ ρ.verbs = xrdVerbsBrowse)) ∨
-     (ρ.resources = [n ++ xrd_suffixFinalizers] ∧ ρ.verbs = xrdVerbsUpdate))
-
 /-- **XRD roles grant exactly the composite and claim resources.** Every rule of every role
 derived for an XRD is over the XRD's group only and names only its composite plural or its
 claim plural (with `/status`, or `/finalizers` with verb update); no names, no URLs. -/
@@ -306,14 +317,6 @@ theorem binding_subjects_owned (uid : String) (ds : List Deployment) (sj : Subje
   exact ⟨d, hd, ho, rfl⟩
 
 /-! ### non-vacuity: a store on which the reconciler does write, and one on which it is refused -/
-
-def exPR (reqs : List PolicyRule) : PR :=
-  { name := "p", uid := "u", paused := false, deleted := false, family := "", org := some ("r", "o"),
-    refs := [⟨"apiextensions.k8s.io/v1", "CustomResourceDefinition", "widgets.example.org"⟩], requests := reqs }
-
-def exStore (reqs : List PolicyRule) : Store :=
-  { prs := [exPR reqs], xrds := [], deploys := [],
-    roles := [⟨"allow", [], [⟨["get"], ["g"], ["r"], [], []⟩], none⟩], bindings := [] }
 
 example : ((applied sem Plan.allOk 0 (reconcile ⟨some "allow"⟩ "p") (exStore [⟨["get"], ["g"], ["r"], ["n"], []⟩])).filter Req.isWrite).length = 3 := by decide
 example : ((applied sem Plan.allOk 0 (reconcile ⟨some "allow"⟩ "p") (exStore [⟨["get", "list"], ["g"], ["r"], [], []⟩])).filter Req.isWrite).length = 0 := by decide
